@@ -1065,6 +1065,80 @@ func impliesResult(c *core.Ctx, fn *ssa.Function, v ssa.Value, val bool) (bool, 
 	return true, ""
 }
 
+// forcesFailure: like impliesFalse, for validators that report failure as an error as well. v is a
+// bool (assumed false) or a call of a function whose last result is an error (assumed non-nil: every
+// `err != nil` / `err == nil` test of it is taken accordingly); fn fails when its bool result is false
+// or, if its last result is an error, when that error is definitely not nil.
+func forcesFailure(c *core.Ctx, fn *ssa.Function, v ssa.Value) (bool, string) {
+	assume := map[ssa.Value]bool{}
+	if bt, ok := v.Type().Underlying().(*types.Basic); ok && bt.Kind() == types.Bool {
+		assume[v] = false
+	} else if call, ok := v.(*ssa.Call); ok && call.Referrers() != nil {
+		for _, r := range *call.Referrers() {
+			ex, ok := r.(*ssa.Extract)
+			if !ok || !types.Identical(ex.Type(), types.Universe.Lookup("error").Type()) || ex.Referrers() == nil {
+				continue
+			}
+			for _, r2 := range *ex.Referrers() {
+				if b, ok := r2.(*ssa.BinOp); ok && (b.Op == token.EQL || b.Op == token.NEQ) && (an.IsNilConst(b.X) || an.IsNilConst(b.Y)) {
+					assume[b] = b.Op == token.NEQ
+				}
+			}
+		}
+	}
+	if len(assume) == 0 {
+		return false, "the check's outcome is not tested"
+	}
+	res := fn.Signature.Results()
+	errMode := res.Len() > 0 && types.Identical(res.At(res.Len()-1).Type(), types.Universe.Lookup("error").Type())
+	fr := an.NoSubject()
+	fr.Assume = assume
+	vb := v.(ssa.Instruction).Block()
+	seen := 0
+	for _, rb := range an.ReturnBlocks(fn) {
+		ret := an.LastInstr(rb).(*ssa.Return)
+		paths, ok := an.PathsTo(fn, rb, 4096)
+		if !ok {
+			return false, "too many paths"
+		}
+		c.CountPaths(len(paths))
+	nextPath:
+		for _, p := range paths {
+			if !p.Contains(vb) {
+				continue
+			}
+			for _, cd := range p.Conds() {
+				cv, pol := stripNot(cd.V, cd.True)
+				if want, has := assume[cv]; has && pol != want {
+					continue nextPath
+				}
+				if cd.Idx >= 0 && cd.Idx < len(p) {
+					ct, cf := fr.BoolMeaning(cd.V, p[:cd.Idx+1], an.Full(), 0)
+					if (cd.True && ct.IsEmpty()) || (!cd.True && cf.IsEmpty()) {
+						continue nextPath
+					}
+				}
+			}
+			seen++
+			rvs := an.ReturnValues(ret)
+			if errMode {
+				if an.Nilness(resolveRet(rvs[len(rvs)-1], p)) != 1 {
+					return false, "a path on which the check fails can still return a nil error (" + c.P.Pos(ret.Pos()) + ")"
+				}
+				continue
+			}
+			t, _ := fr.BoolMeaning(ret.Results[0], p, an.Full(), 0)
+			if !t.IsEmpty() {
+				return false, "a path on which the check fails can still return true (" + c.P.Pos(ret.Pos()) + ")"
+			}
+		}
+	}
+	if seen == 0 {
+		return false, "no return path evaluates the check"
+	}
+	return true, ""
+}
+
 // forAllLoop: call is applied to elem = X[i] inside a loop; decide from the
 // loop's shape that i takes every position 0 … len(X)-1 and that no iteration
 // gets back to the loop header without having made the call (`continue`
@@ -1360,11 +1434,11 @@ func runValSlice(c *core.Ctx) {
 				return
 			}
 			forces := func() bool {
-				if okf, _ := impliesFalse(c, call.Parent(), call); !okf {
+				if okf, _ := forcesFailure(c, call.Parent(), call); !okf {
 					return false
 				}
 				for _, site := range o.Chain {
-					if okf, _ := impliesFalse(c, site.Parent(), site); !okf {
+					if okf, _ := forcesFailure(c, site.Parent(), site); !okf {
 						return false
 					}
 				}
